@@ -52,7 +52,7 @@ Definition header_new (t : mtype) (len : Z) : header :=
      h_length := len; h_type := t; h_version := PROTO_VERSION; h_flags := 0 |}.
 
 (** validate: magic, then version, then length *)
-Definition validate (h : header) : res unit :=
+Definition hvalidate (h : header) : res unit :=
   if negb (magic_ok (h_m0 h) (h_m1 h) (h_m2 h) (h_m3 h)) then RErr EMagic
   else if negb (h_version h =? PROTO_VERSION) then RErr EVersion
   else if h_length h >? MAX_PAYLOAD_SIZE then RErr ELength
@@ -69,7 +69,7 @@ Definition header_encode_ck (checked : bool) (h : header) : option (list Z) :=
   if checked && negb (h_m0 h =? 67) then None else Some (header_encode h).
 
 (** decode takes a [&[u8; 12]]: the type byte is converted FIRST (from_u8), the
-    other fields are only looked at by [validate] afterwards.  A list of another
+    other fields are only looked at by [hvalidate] afterwards.  A list of another
     length cannot be passed in Rust; the model answers [EIo] for it. *)
 Definition header_decode (buf : list Z) : res header :=
   match buf with
@@ -80,7 +80,7 @@ Definition header_decode (buf : list Z) : res header :=
           let h := {| h_m0 := b0; h_m1 := b1; h_m2 := b2; h_m3 := b3;
                       h_length := b4 + 256 * (b5 + 256 * (b6 + 256 * b7));
                       h_type := t; h_version := b9; h_flags := b10 + 256 * b11 |} in
-          match validate h with RErr e => RErr e | ROk _ => ROk h end
+          match hvalidate h with RErr e => RErr e | ROk _ => ROk h end
       end
   | _ => RErr EIo
   end.
@@ -126,7 +126,7 @@ Definition read_message (inp : list Z) : Z * res (message * list Z) :=
   match read_from inp with
   | RErr e => (0, RErr e)
   | ROk (h, rest) =>
-      match validate h with
+      match hvalidate h with
       | RErr e => (0, RErr e)
       | ROk _ =>
           (h_length h,
